@@ -404,6 +404,30 @@ def gen_sync():
     text += "def skinLoopsSkipUnknown : Bool := %s\n" % str(loops_ok).lower()
     text += "/-- a SkinnedMesh change is signalled under the name apply_component_change_from_network stores its token with (D5) -/\n"
     text += "def skinTokenNameConsistent : Bool := %s\n" % str(stores_as_skinned == signals_as_skinned).lower()
+    # C05: parent links — debounce at both apply sites and both announce sites, unconditional relay on the host
+    sr = strip_comments(open(os.path.join(REPO, "src/server/receiver.rs")).read())
+    cr = strip_comments(open(os.path.join(REPO, "src/client/receiver.rs")).read())
+    st = strip_comments(open(os.path.join(REPO, "src/server/track.rs")).read())
+    ct = strip_comments(open(os.path.join(REPO, "src/client/track.rs")).read())
+    ns = lambda x: re.sub(r"\s+", "", x)
+    def parented_arm(src):
+        m = re.search(r"Message::EntityParented\s*\{.*?Message::EntityDelete", src, flags=re.S)
+        if not m:
+            raise TranslateError("EntityParented arm not found")
+        return ns(m.group(0))
+    sa, ca = parented_arm(sr), parented_arm(cr)
+    apply_tokens = all(re.search(r"set_parent\(\w+\);world\.entity_mut\(\w+\)\.add_child\(\w+\);world\.resource_mut::<SyncTrackerRes>\(\)\.parent_pushed_from_network\(", a) for a in (sa, ca))
+    announce_skips = "iftrack.skip_network_parent_change(" in ns(fn_body(st, "entity_parented_on_server")) and \
+        "iftrack.skip_network_parent_change(" in ns(fn_body(ct, "entity_parented_on_client"))
+    # the relay call of the host closure is outside the `if` that sets the parent
+    relay_always = bool(re.search(r"add_child\(\w+\);(world\.resource_mut::<SyncTrackerRes>\(\)\.parent_pushed_from_network\(\w+\);)?\}repeat_except_for_client\(", sa))
+    handler_pair = all(re.search(r"if\w+\.is_none\(\)\|\|\w+\.unwrap\(\)\.get\(\)!=\w+\{\w+\.set_parent\(", a) for a in (sa, ca))
+    text += "/-- both EntityParented handlers file a debounce token when (and only when) they change the link, both entity_parented_on_* consume it (D3) -/\n"
+    text += "def parentDebounced : Bool := %s\n" % str(apply_tokens and announce_skips).lower()
+    text += "/-- the host relays a received link to the other clients whether or not it changed the host's link -/\n"
+    text += "def parentRelayAlways : Bool := %s\n" % str(relay_always).lower()
+    text += "/-- the handlers apply the link only if it differs, by `set_parent(p)` followed by `add_child` on p -/\n"
+    text += "def parentHandlerPair : Bool := %s\n" % str(handler_pair).lower()
     text += FOOTER
     write("Sync.lean", text)
 
